@@ -114,6 +114,59 @@ fn classify(d: &Diag) -> String {
     }
 }
 
+type Row = (&'static str, String, usize, Input, Vec<String>);
+
+/// Type-checks the collected crates, reports violations, and empties the collections.
+fn flush(rep: &mut Report, ps: usize, target: Target, rows: &mut Vec<Row>, rcases: &mut Vec<RCase>, owners: &mut Vec<Vec<usize>>, dedup: &mut BTreeMap<u64, usize>) -> Result<(), ()> {
+    for r in rows.iter().step_by((rows.len() / 2).max(1)).take(2) {
+        rep.sample(json!({"ps": ps, "family": r.0, "input": r.3.render()}));
+    }
+        // cases with and without shared files cannot share a batch: split
+    let (with_shared, without): (Vec<usize>, Vec<usize>) = (0..rcases.len()).partition(|i| !rcases[*i].shared.is_empty());
+    for group in [with_shared, without] {
+        let cs: Vec<RCase> = group.iter().map(|i| rcases[*i].clone()).collect();
+        rep.count(&format!("crates_type_checked_ps{ps}"), cs.len() as u64);
+        for c in &cs {
+            rep.distinct.insert(util::fnv(&format!("{ps}{:?}", c.files)));
+        }
+        match check_cases(&cs, target, 250) {
+            Err(e) => {
+                rep.machinery(format!("{e:#}"));
+                return Err(());
+            }
+            Ok((diags, stats)) => {
+                rep.count("rustc_invocations", stats.rustc_invocations as u64);
+                for (k, ds) in diags.iter().enumerate() {
+                    if ds.is_empty() {
+                        continue;
+                    }
+                    for &row in &owners[group[k]] {
+                        let (family, space, idx, input, features) = &rows[row];
+                        let mut f = features.clone();
+                        f.push(format!("family:{family}"));
+                        if ds[0].code == "E0081" {
+                            f.push("duplicate_enum_values".into());
+                        }
+                        rep.violation(Violation {
+                            key: classify(&ds[0]),
+                            features: f,
+                            input: input.clone(),
+                            ps,
+                            detail: format!("{}\n--- emitted ---\n{}", ds.iter().take(4).map(|d| d.rendered.clone()).collect::<Vec<_>>().join("\n"), cs[k].files.values().cloned().collect::<Vec<_>>().join("\n// ----\n")),
+                            locator: json!({"space": space, "index": idx, "ps": ps}),
+                        });
+                    }
+                }
+            }
+        }
+    }
+    rows.clear();
+    rcases.clear();
+    owners.clear();
+    dedup.clear();
+    Ok(())
+}
+
 pub fn run(tier: &str, only: Option<&Value>) -> i32 {
     let mut rep = Report::new("C13", tier);
     rep.rule = "Every accepted case of: the layout space with auxiliary module (C01/C02), a dedicated space of every subset of {copyable, cloneable, defaultable, packed} x eleven field kinds (scalars, pointers, arrays up to 32, user structs with and without the same markers, enums with and without a default, extern type, pointer / array of marked struct) x same-module / cross-module, the carry-over (C17), convention (C16), scoping (C11), enum (C08), hierarchy (C06/C07) and module-set (C19) spaces (quick: strided subsets of the larger ones) — is assembled into a crate (modules mirroring the input tree, extern types supplied) and type-checked in full by rustc for x86_64 (calling conventions normalised to \"C\") and, unmodified, for i686-pc-windows-msvc. Oracle: zero errors; deny-by-default lints count, warnings do not. distinct = distinct emitted crates".into();
@@ -127,7 +180,7 @@ pub fn run(tier: &str, only: Option<&Value>) -> i32 {
         }
         let target = Target::for_ps(ps);
         // (family, index, input, features, files)
-        let mut rows: Vec<(&'static str, String, usize, Input, Vec<String>)> = vec![];
+        let mut rows: Vec<Row> = vec![];
         let mut rcases: Vec<RCase> = vec![];
         let mut dedup: BTreeMap<u64, usize> = BTreeMap::new();
         let mut owners: Vec<Vec<usize>> = vec![];
@@ -170,12 +223,17 @@ pub fn run(tier: &str, only: Option<&Value>) -> i32 {
                 _ => rep.count(&format!("rejected_{}", s.family), 1),
             }
         }
-        // layout space
-        if only_i.is_none() || matches!(&only_i, Some((s, _, _)) if s == "layout") {
-            let lidx: Vec<usize> = match &only_i {
-                Some((_, i, _)) => vec![*i],
-                None => (0..layout.len()).collect(),
-            };
+        if flush(&mut rep, ps, target, &mut rows, &mut rcases, &mut owners, &mut dedup).is_err() {
+            return rep.finish();
+        }
+        // layout space, in chunks
+        let chunks: Vec<std::ops::Range<usize>> = match &only_i {
+            Some((s, i, _)) if s == "layout" => vec![*i..*i + 1],
+            Some(_) => vec![],
+            None => (0..layout.len()).step_by(2_000_000).map(|lo| lo..(lo + 2_000_000).min(layout.len())).collect(),
+        };
+        for chunk in chunks {
+            let lidx: Vec<usize> = chunk.collect();
             let outs = util::par_map(lidx.len(), |j, _| {
                 let case = layout.get(lidx[j], ps as u64);
                 let input = to_input(&layout.modules_for(&case.ty));
@@ -218,48 +276,9 @@ pub fn run(tier: &str, only: Option<&Value>) -> i32 {
                     }
                 }
             }
-        }
-        // cases with and without shared files cannot share a batch: split
-        let (with_shared, without): (Vec<usize>, Vec<usize>) = (0..rcases.len()).partition(|i| !rcases[*i].shared.is_empty());
-        for group in [with_shared, without] {
-            let cs: Vec<RCase> = group.iter().map(|i| rcases[*i].clone()).collect();
-            rep.count(&format!("crates_type_checked_ps{ps}"), cs.len() as u64);
-            for c in &cs {
-                rep.distinct.insert(util::fnv(&format!("{ps}{:?}", c.files)));
+            if flush(&mut rep, ps, target, &mut rows, &mut rcases, &mut owners, &mut dedup).is_err() {
+                return rep.finish();
             }
-            match check_cases(&cs, target, 250) {
-                Err(e) => {
-                    rep.machinery(format!("{e:#}"));
-                    return rep.finish();
-                }
-                Ok((diags, stats)) => {
-                    rep.count("rustc_invocations", stats.rustc_invocations as u64);
-                    for (k, ds) in diags.iter().enumerate() {
-                        if ds.is_empty() {
-                            continue;
-                        }
-                        for &row in &owners[group[k]] {
-                            let (family, space, idx, input, features) = &rows[row];
-                            let mut f = features.clone();
-                            f.push(format!("family:{family}"));
-                            if ds[0].code == "E0081" {
-                                f.push("duplicate_enum_values".into());
-                            }
-                            rep.violation(Violation {
-                                key: classify(&ds[0]),
-                                features: f,
-                                input: input.clone(),
-                                ps,
-                                detail: format!("{}\n--- emitted ---\n{}", ds.iter().take(4).map(|d| d.rendered.clone()).collect::<Vec<_>>().join("\n"), cs[k].files.values().cloned().collect::<Vec<_>>().join("\n// ----\n")),
-                                locator: json!({"space": space, "index": idx, "ps": ps}),
-                            });
-                        }
-                    }
-                }
-            }
-        }
-        for r in rows.iter().step_by((rows.len() / 4).max(1)).take(4) {
-            rep.sample(json!({"ps": ps, "family": r.0, "input": r.3.render()}));
         }
     }
     if only.is_some() {
